@@ -993,4 +993,417 @@ theorem set_str_pow2_of_table {b : Nat} (hok : Pow2Ok b) (h64 : bigBase b ≤ 64
   refine ⟨?_, l⟩
   rw [v, List.reverse_reverse, hpow]; simp
 
+/-! ### parser -/
+
+theorem skipSpace_eq : ∀ l : List Nat, skipSpace l = rd (l.dropWhile isSpace)
+  | [] => rfl
+  | c :: r => by
+    by_cases h : isSpace c = true
+    · simp [skipSpace, h, skipSpace_eq r]
+    · simp [skipSpace, h, rd]
+
+/-- the characters skipped after the prefix: `'0'` and white space -/
+def zs (c : Nat) : Bool := c == 48 || isSpace c
+
+theorem skipZeroSpace_eq : ∀ l : List Nat, skipZeroSpace (rd l).1 (rd l).2 = rd (l.dropWhile zs)
+  | [] => by simp [rd, skipZeroSpace]
+  | [c] => by
+    by_cases h : zs c = true
+    · have h' : (c == 48 || isSpace c) = true := h
+      simp [rd, skipZeroSpace, h, h']
+    · have h' : ¬ (c == 48 || isSpace c) = true := h
+      simp [rd, skipZeroSpace, h, h']
+  | c :: c' :: r => by
+    have ih := skipZeroSpace_eq (c' :: r)
+    by_cases h : zs c = true
+    · have h' : (c == 48 || isSpace c) = true := h
+      simp only [rd, skipZeroSpace, h', if_true, List.dropWhile_cons_of_pos h] at ih ⊢
+      exact ih
+    · have h' : ¬ (c == 48 || isSpace c) = true := h
+      simp [rd, skipZeroSpace, h', List.dropWhile_cons_of_neg h]
+
+/-- the table offset used for a requested base -/
+def offOf (rb : Nat) : Nat := if rb > 36 then 224 else 0
+
+theorem charValue_base (rb c : Nat) : charValue rb c = if rb ≤ 36 then charValue 36 c else charValue 62 c := by
+  unfold charValue
+  by_cases h : rb ≤ 36 <;> simp [h]
+
+/-- hypothesis form of `digit_tab_ok` -/
+def TabOk : Prop := ∀ c < 256,
+  digitValue 0 c = (match charValue 36 c with | some v => v | none => 255) ∧
+  digitValue 224 c = (match charValue 62 c with | some v => v | none => 255)
+
+theorem digitValue_eq (htab : TabOk) (rb c : Nat) (hc : c < 256) :
+    digitValue (offOf rb) c = (charValue rb c).getD 255 := by
+  obtain ⟨h1, h2⟩ := htab c hc
+  rw [charValue_base]
+  unfold offOf
+  by_cases h : rb ≤ 36
+  · have : ¬ rb > 36 := by omega
+    simp only [this, if_false, h, if_true, h1]
+    cases charValue 36 c <;> rfl
+  · have : rb > 36 := by omega
+    simp only [this, if_true, h, if_false, h2]
+    cases charValue 62 c <;> rfl
+
+theorem charValue_lt (rb c v : Nat) (h : charValue rb c = some v) : v < 62 := by
+  unfold charValue at h
+  split at h
+  · simp at h; omega
+  · split at h
+    · simp at h; omega
+    · split at h
+      · simp at h; split at h <;> omega
+      · simp at h
+
+theorem digitOf_eq (htab : TabOk) (rb b c : Nat) (hc : c < 256) (hb : b ≤ 62) :
+    digitOf rb b c = if digitValue (offOf rb) c < b then some (digitValue (offOf rb) c) else none := by
+  rw [digitValue_eq htab rb c hc]
+  unfold digitOf
+  cases h : charValue rb c with
+  | none => simp; omega
+  | some v => simp
+
+theorem convDigits_eq (htab : TabOk) (rb b : Nat) (hb : b ≤ 62) : ∀ l : List Nat, (∀ c ∈ l, c < 256) →
+    convDigits (offOf rb) b l = (l.filter (fun c => !isSpace c)).mapM (digitOf rb b)
+  | [], _ => by simp [convDigits]
+  | c :: r, h => by
+    have ih := convDigits_eq htab rb b hb r (fun x hx => h x (List.mem_cons_of_mem _ hx))
+    have hc := h c (by simp)
+    rw [convDigits]
+    by_cases hs : isSpace c = true
+    · simp [hs, ih]
+    · simp only [hs, Bool.not_false, if_true, List.filter_cons_of_pos, List.mapM_cons,
+        digitOf_eq htab rb b c hc hb, ih]
+      by_cases hd : digitValue (offOf rb) c < b
+      · have : ¬ digitValue (offOf rb) c ≥ b := by omega
+        simp only [this, if_false, hd, if_true]
+        cases (List.filter (fun c => !isSpace c) r).mapM (digitOf rb b) <;> simp
+      · have : digitValue (offOf rb) c ≥ b := by omega
+        simp [this, hd]
+
+theorem val_natLimbs (v : Nat) : val (natLimbs v) = v ∧ Limbs (natLimbs v) := by
+  induction v using Nat.strong_induction_on with
+  | _ v ih =>
+    rw [natLimbs]
+    split
+    · rename_i h; subst h; simp [Limbs_nil]
+    · rename_i h
+      obtain ⟨iv, il⟩ := ih (v / B) (Nat.div_lt_self (Nat.pos_of_ne_zero h) (by rw [B_eq]; omega))
+      refine ⟨?_, Limbs_cons.mpr ⟨Nat.mod_lt _ B_pos, il⟩⟩
+      rw [val_cons, iv]; have := Nat.div_add_mod v B; omega
+
+/-- mpn_set_str returns the value of the digit string (power-of-two path, basecase, and the
+    specification-level stand-in for the divide-and-conquer path) -/
+theorem mpn_set_str_val_of_table {b : Nat} (hb : 2 ≤ b) (hb62 : b ≤ 62)
+    (hnp : pow2P b = false → NonPow2Ok b) (hp2 : pow2P b = true → Pow2Ok b)
+    (str : List Nat) (hne : str ≠ []) (hd : ∀ d ∈ str, d < b) :
+    val (mpn_set_str b str) = ofDigits b str := by
+  unfold mpn_set_str
+  cases hp : pow2P b with
+  | true =>
+    simp only [if_true]
+    have hok := hp2 hp
+    have h64 : bigBase b ≤ 64 := by
+      by_contra hcon
+      have : 2 ^ 64 ≤ 2 ^ bigBase b := Nat.pow_le_pow_right (by omega) (by omega)
+      rw [hok.1] at this; omega
+    exact (set_str_pow2_of_table hok h64 str hd).1
+  | false =>
+    simp only [Bool.false_eq_true, if_false]
+    split
+    · have hok := hnp hp
+      have := bcLoop_val hb (hok.cpl_pos hb62) hok.1 (hok.1 ▸ hok.2.1) str.length str [] rfl hne hd Limbs_nil
+      simpa [bc_set_str] using this.1
+    · exact (val_natLimbs _).1
+
+/-- leading `'0'` characters and white space do not change the value -/
+theorem mapM_dropWhile_zs (rb b : Nat) (hb : 0 < b) : ∀ l : List Nat,
+    ((l.filter (fun c => !isSpace c)).mapM (digitOf rb b)).map (ofDigits b) =
+    (((l.dropWhile zs).filter (fun c => !isSpace c)).mapM (digitOf rb b)).map (ofDigits b)
+  | [] => rfl
+  | c :: r => by
+    have ih := mapM_dropWhile_zs rb b hb r
+    by_cases h : zs c = true
+    · rw [List.dropWhile_cons_of_pos h, ← ih]
+      by_cases hs : isSpace c = true
+      · simp [hs]
+      · have h48 : c = 48 := by
+          unfold zs at h; simp only [Bool.or_eq_true, beq_iff_eq] at h
+          rcases h with h | h
+          · exact h
+          · exact absurd h hs
+        subst h48
+        have hd0 : digitOf rb b 48 = some 0 := by
+          unfold digitOf charValue; simp; omega
+        simp only [hs, Bool.not_false, List.filter_cons_of_pos, List.mapM_cons, hd0]
+        cases (List.filter (fun c => !isSpace c) r).mapM (digitOf rb b) with
+        | none => simp
+        | some ds => simp [ofDigits_cons]
+    · rw [List.dropWhile_cons_of_neg h]
+
+theorem mapM_digitOf_lt (rb b : Nat) : ∀ (l ds : List Nat), l.mapM (digitOf rb b) = some ds →
+    (∀ d ∈ ds, d < b) ∧ ds.length = l.length
+  | [], ds, h => by simp at h; subst h; simp
+  | c :: r, ds, h => by
+    simp only [List.mapM_cons] at h
+    cases hc : digitOf rb b c with
+    | none => simp [hc] at h
+    | some v =>
+      cases hr : r.mapM (digitOf rb b) with
+      | none => simp [hc, hr] at h
+      | some vs =>
+        simp [hc, hr] at h
+        subst h
+        obtain ⟨i1, i2⟩ := mapM_digitOf_lt rb b r vs hr
+        have hv : v < b := by
+          unfold digitOf at hc
+          cases hcv : charValue rb c with
+          | none => simp [hcv] at hc
+          | some w =>
+            simp [hcv] at hc
+            obtain ⟨h1, h2⟩ := hc; omega
+        refine ⟨?_, by simp [i2]⟩
+        intro d hd
+        rcases List.mem_cons.mp hd with h | h
+        · omega
+        · exact i1 d h
+
+/-- the value part of the specification once sign, base and prefix are settled -/
+def specTail (rb b : Nat) (neg : Bool) (s3 : List Nat) : Option Int :=
+  match (s3.filter (fun c => !isSpace c)).mapM (digitOf rb b) with
+  | none => none
+  | some ds => some (if neg then -(Int.ofNat (ofDigits b ds)) else Int.ofNat (ofDigits b ds))
+
+theorem setStrTail_eq (htab : TabOk) {rb b : Nat} (hb : 2 ≤ b) (hb62 : b ≤ 62)
+    (hnp : pow2P b = false → NonPow2Ok b) (hp2 : pow2P b = true → Pow2Ok b) (neg : Bool)
+    (s3 : List Nat) (h3 : ∀ c ∈ s3, c ≠ 0 ∧ c < 256) :
+    setStrTail (offOf rb) b neg (rd s3).1 (rd s3).2 = specTail rb b neg s3 := by
+  unfold setStrTail specTail
+  rw [skipZeroSpace_eq]
+  have hdz := mapM_dropWhile_zs rb b (by omega) s3
+  have hsub : ∀ c ∈ s3.dropWhile zs, c ≠ 0 ∧ c < 256 :=
+    fun c hc => h3 c ((List.dropWhile_sublist _).subset hc)
+  cases hs4 : s3.dropWhile zs with
+  | nil =>
+    rw [hs4] at hdz
+    simp only [rd, beq_self_eq_true, if_true]
+    simp only [List.filter_nil, List.mapM_nil] at hdz
+    cases hm : (s3.filter (fun c => !isSpace c)).mapM (digitOf rb b) with
+    | none => rw [hm] at hdz; simp at hdz
+    | some ds =>
+      rw [hm] at hdz
+      have : ofDigits b ds = 0 := by simpa using hdz
+      simp [this]
+  | cons c str =>
+    rw [hs4] at hdz hsub
+    have hc0 : c ≠ 0 := (hsub c (by simp)).1
+    have hnz : ¬ zs c = true := by
+      have := List.head_dropWhile_not zs (l := s3) (by rw [hs4]; simp)
+      simp only [hs4, List.head_cons] at this
+      simpa using this
+    have hnsp : isSpace c = false := by
+      unfold zs at hnz; simp only [Bool.or_eq_true, not_or] at hnz
+      simpa using hnz.2
+    have hcb : (c == 0) = false := by simpa using hc0
+    simp only [rd, hcb, Bool.false_eq_true, if_false]
+    rw [convDigits_eq htab rb b hb62 (c :: str) (fun x hx => (hsub x hx).2)]
+    cases hm4 : ((c :: str).filter (fun c => !isSpace c)).mapM (digitOf rb b) with
+    | none =>
+      rw [hm4] at hdz
+      cases hm : (s3.filter (fun c => !isSpace c)).mapM (digitOf rb b) with
+      | none => rfl
+      | some ds => rw [hm] at hdz; simp at hdz
+    | some ds =>
+      rw [hm4] at hdz
+      obtain ⟨hlt, hlen⟩ := mapM_digitOf_lt rb b _ ds hm4
+      have hne : ds ≠ [] := by
+        intro e; rw [e] at hlen
+        simp [hnsp] at hlen
+      have hv := mpn_set_str_val_of_table hb hb62 hnp hp2 ds hne hlt
+      cases hm : (s3.filter (fun c => !isSpace c)).mapM (digitOf rb b) with
+      | none => rw [hm] at hdz; simp at hdz
+      | some ds' =>
+        rw [hm] at hdz
+        have : ofDigits b ds' = ofDigits b ds := by simpa using hdz
+        simp [hv, this]
+
+theorem splitPrefix_other (c1 : Nat) (r : List Nat) (h1 : c1 ≠ 120) (h2 : c1 ≠ 88) (h3 : c1 ≠ 98) (h4 : c1 ≠ 66) :
+    splitPrefix (48 :: c1 :: r) = (8, c1 :: r) := by
+  unfold splitPrefix
+  split <;> simp_all
+
+theorem splitPrefix_not48 (c : Nat) (r : List Nat) (h : c ≠ 48) : splitPrefix (c :: r) = (10, c :: r) := by
+  unfold splitPrefix
+  split <;> simp_all
+
+theorem setStrPrefix_zero (c : Nat) (r : List Nat) :
+    setStrPrefix 0 c r = ((splitPrefix (c :: r)).1, (rd (splitPrefix (c :: r)).2).1, (rd (splitPrefix (c :: r)).2).2) := by
+  unfold setStrPrefix
+  simp only [if_true]
+  by_cases h48 : c = 48
+  · subst h48
+    simp only [beq_self_eq_true, if_true]
+    cases r with
+    | nil => simp [rd, splitPrefix]
+    | cons c1 r1 =>
+      by_cases h1 : c1 = 120
+      · subst h1; simp [rd, splitPrefix]
+      by_cases h2 : c1 = 88
+      · subst h2; simp [rd, splitPrefix]
+      by_cases h3 : c1 = 98
+      · subst h3; simp [rd, splitPrefix]
+      by_cases h4 : c1 = 66
+      · subst h4; simp [rd, splitPrefix]
+      rw [splitPrefix_other c1 r1 h1 h2 h3 h4]
+      simp [rd, h1, h2, h3, h4]
+  · rw [splitPrefix_not48 c r h48]
+    have : (c == 48) = false := by simpa using h48
+    simp [this, rd]
+
+/-- the bases mpz_set_str can end up converting in -/
+theorem splitPrefix_base (s : List Nat) : (splitPrefix s).1 = 16 ∨ (splitPrefix s).1 = 2 ∨ (splitPrefix s).1 = 8 ∨
+    (splitPrefix s).1 = 10 := by
+  unfold splitPrefix; split <;> simp
+
+theorem splitPrefix_suffix (s : List Nat) : ∀ c ∈ (splitPrefix s).2, c ∈ s := by
+  unfold splitPrefix; split <;> simp_all
+
+/-- table facts for all bases, as established by `bases_table_ok` -/
+def BasesOk : Prop := ∀ b < 63, 2 ≤ b → (pow2P b = false → NonPow2Ok b) ∧ (pow2P b = true → Pow2Ok b)
+
+/-- mpz_set_str after white space and sign -/
+def modelRest (rb : Nat) (neg : Bool) (c : Nat) (str : List Nat) : Option Int :=
+  if ((digitValue (offOf rb) c : Nat) : Int) ≥ (if (rb : Int) = 0 then 10 else (rb : Int)) then none else
+  match setStrPrefix (rb : Int) c str with
+  | (b, c, str) => setStrTail (offOf rb) b neg c str
+
+/-- parseSpec after white space and sign -/
+def specRest (rb : Nat) (neg : Bool) (s2 : List Nat) : Option Int :=
+  match s2 with
+  | [] => none
+  | c :: _ =>
+    if (digitOf rb (if rb = 0 then 10 else rb) c).isNone then none else
+    match (if rb = 0 then splitPrefix s2 else (rb, s2)) with
+    | (b, s) => specTail rb b neg s
+
+theorem rest_eq (htab : TabOk) (hbases : BasesOk) {rb : Nat} (hrb62 : rb ≤ 62) (hrb1 : rb ≠ 1) (neg : Bool)
+    (s2 : List Nat) (h2 : ∀ c ∈ s2, c ≠ 0 ∧ c < 256) :
+    modelRest rb neg (rd s2).1 (rd s2).2 = specRest rb neg s2 := by
+  have hlimI : (if (rb : Int) = 0 then (10 : Int) else (rb : Int)) = (((if rb = 0 then 10 else rb) : Nat) : Int) := by
+    by_cases h : rb = 0 <;> simp [h]
+  have hlim62 : (if rb = 0 then 10 else rb) ≤ 62 := by split <;> omega
+  cases s2 with
+  | nil =>
+    show modelRest rb neg 0 [] = none
+    unfold modelRest
+    have h255 : digitValue (offOf rb) 0 = 255 := by
+      rw [digitValue_eq htab rb 0 (by omega)]; rfl
+    rw [if_pos (by rw [h255, hlimI]; omega)]
+  | cons c r =>
+    show modelRest rb neg c r = _
+    have hc := (h2 c (by simp)).2
+    unfold modelRest specRest
+    dsimp only
+    rw [hlimI, digitOf_eq htab rb _ c hc hlim62]
+    by_cases hd : digitValue (offOf rb) c < (if rb = 0 then 10 else rb)
+    · rw [if_neg (by omega), if_pos hd]
+      simp only [Option.isNone_some, Bool.false_eq_true, if_false]
+      by_cases h0 : rb = 0
+      · subst h0
+        simp only [Nat.cast_zero, if_true]
+        rw [setStrPrefix_zero]
+        have hb := splitPrefix_base (c :: r)
+        have hsuf := splitPrefix_suffix (c :: r)
+        generalize splitPrefix (c :: r) = p at *
+        obtain ⟨b, s3⟩ := p
+        simp only at hb hsuf ⊢
+        have hb2 : 2 ≤ b ∧ b ≤ 62 := by omega
+        exact setStrTail_eq htab hb2.1 hb2.2 (hbases b (by omega) hb2.1).1 (hbases b (by omega) hb2.1).2 neg s3
+          (fun x hx => h2 x (hsuf x hx))
+      · have hb2 : 2 ≤ rb := by omega
+        have hne : ((rb : Nat) : Int) ≠ 0 := by omega
+        simp only [setStrPrefix, hne, if_false, h0, Int.toNat_natCast]
+        exact setStrTail_eq htab hb2 hrb62 (hbases rb (by omega) hb2).1 (hbases rb (by omega) hb2).2 neg (c :: r) h2
+    · rw [if_pos (by omega), if_neg hd]
+      simp only [Option.isNone_none, if_true]
+
+theorem mem_takeWhile_ne0 (c : Nat) : ∀ l : List Nat, c ∈ l.takeWhile (· != 0) → c ≠ 0 := by
+  intro l
+  induction l with
+  | nil => simp
+  | cons x l ih =>
+    intro h
+    by_cases hx : x = 0
+    · subst hx; simp at h
+    · simp only [List.takeWhile_cons, bne_iff_ne, ne_eq, hx, not_false_eq_true, if_true,
+        List.mem_cons] at h
+      rcases h with h | h
+      · omega
+      · exact ih h
+
+theorem mpz_set_str_eq_parse_of (htab : TabOk) (hbases : BasesOk) (base : Int) (hb1 : base ≠ 1)
+    (s : List Nat) (hs : ∀ c ∈ s, c < 256) : mpz_set_str base s = parseSpec base s := by
+  have hs' : ∀ c ∈ s.takeWhile (· != 0), c ≠ 0 ∧ c < 256 := fun c hc =>
+    ⟨mem_takeWhile_ne0 c s hc, hs c ((List.takeWhile_sublist _).subset hc)⟩
+  by_cases h62 : base > 62
+  · unfold mpz_set_str parseSpec
+    have : base < 0 ∨ base = 1 ∨ 62 < base := Or.inr (Or.inr h62)
+    dsimp only
+    rw [if_pos this, if_pos h62]
+  by_cases hneg : base < 0
+  · unfold mpz_set_str parseSpec
+    have hne0 : base ≠ 0 := by omega
+    have hor : base < 0 ∨ base = 1 ∨ 62 < base := Or.inl hneg
+    dsimp only
+    rw [if_pos hor, if_neg h62]
+    have : ∀ (off c : Nat), ((digitValue off c : Nat) : Int) ≥ (if base = 0 then 10 else base) := by
+      intro off c; rw [if_neg hne0]; omega
+    simp only [this, if_true]
+  -- 0 ≤ base ≤ 62, base ≠ 1
+  obtain ⟨rb, hrb⟩ : ∃ rb : Nat, base = (rb : Int) := ⟨base.toNat, by omega⟩
+  subst hrb
+  have hrb62 : rb ≤ 62 := by omega
+  have hrb1 : rb ≠ 1 := by omega
+  have hoff : (if ((rb : Nat) : Int) > 36 then 224 else 0) = offOf rb := by
+    unfold offOf; by_cases h : rb > 36
+    · have : ((rb : Nat) : Int) > 36 := by omega
+      simp [h, this]
+    · have : ¬ ((rb : Nat) : Int) > 36 := by omega
+      simp [h, this]
+  have hcond : ¬ (((rb : Nat) : Int) < 0 ∨ ((rb : Nat) : Int) = 1 ∨ 62 < ((rb : Nat) : Int)) := by omega
+  -- both sides in terms of modelRest / specRest
+  have hmodel : mpz_set_str (rb : Int) s =
+      (match setStrSign (rd ((s.takeWhile (· != 0)).dropWhile isSpace)).1 (rd ((s.takeWhile (· != 0)).dropWhile isSpace)).2 with
+       | (negative, c, str) => modelRest rb negative c str) := by
+    unfold mpz_set_str
+    simp only [h62, if_false, hoff]
+    rw [skipSpace_eq]
+    rfl
+  have hspec : parseSpec (rb : Int) s =
+      (let s1 := (s.takeWhile (· != 0)).dropWhile isSpace
+       let neg := s1.head? == some 45
+       specRest rb neg (if neg then s1.drop 1 else s1)) := by
+    unfold parseSpec
+    simp only [hcond, if_false, Int.toNat_natCast]
+    rfl
+  rw [hmodel, hspec]
+  have hsub1 : ∀ c ∈ (s.takeWhile (· != 0)).dropWhile isSpace, c ≠ 0 ∧ c < 256 :=
+    fun c hc => hs' c ((List.dropWhile_sublist _).subset hc)
+  generalize (s.takeWhile (· != 0)).dropWhile isSpace = s1 at hsub1
+  cases s1 with
+  | nil =>
+    show modelRest rb false 0 [] = specRest rb false []
+    exact rest_eq htab hbases hrb62 hrb1 false [] (by simp)
+  | cons c0 r0 =>
+    by_cases h45 : c0 = 45
+    · subst h45
+      show modelRest rb true (rd r0).1 (rd r0).2 = specRest rb true r0
+      exact rest_eq htab hbases hrb62 hrb1 true r0 (fun x hx => hsub1 x (List.mem_cons_of_mem _ hx))
+    · have hb : (c0 == 45) = false := by simpa using h45
+      have hh : (some c0 == some 45) = false := by simpa using h45
+      simp only [rd, setStrSign, hb, Bool.false_eq_true, if_false, List.head?_cons, hh]
+      exact rest_eq htab hbases hrb62 hrb1 false (c0 :: r0) hsub1
+
 end Mpir.Radix
